@@ -431,7 +431,15 @@ def mesh_defect_sets(g):
 
 def conforming(g):
     """two different columns share at most two nodes, and if two, these are consecutive in both (a common side);
-    no two connections join the same pair of columns"""
+    no two connections join the same pair of columns; no side (two consecutive nodes of a column) belongs to
+    more than two columns (three columns on one side overlap)"""
+    sides = {}
+    for c in g.columnlist:
+        k = len(c.node)
+        for i in range(k):
+            s = frozenset((id(c.node[i]), id(c.node[(i + 1) % k])))
+            sides[s] = sides.get(s, 0) + 1
+            if sides[s] > 2: return False
     pairs = set()
     for con in g.connectionlist:
         key = frozenset(id(c) for c in con.column)
